@@ -137,6 +137,8 @@ static uint64_t value_work(int tid, Rng& r, bool yields) {
     d = hash_combine(d, hash_combine((uint64_t)(a.index() + 2) * 31 + (uint64_t)(b.index() + 2), (o.empty() ? 0 : o.get().size() + 1) * 7 + (res.has_value() ? 3 : res.has_error() ? 5 : 0)));
     boundary(tid, r, yields);
   }
+  // error messages, incl. codes outside the named enumerators (legal on the wire: the enum decodes from its integer)
+  for (int i = 0; i < 4; i++) { int code = r.below(2) ? (int)r.below(19) : 19 + (int)r.below(60); nop::Status<int> st{(nop::ErrorStatus)code}; nop::Status<void> sv{(nop::ErrorStatus)code}; std::string m1 = st.GetErrorMessage(), m2 = sv.GetErrorMessage(); boundary(tid, r, yields); d = hash_combine(d, hash_combine(hash_str(m1), hash_str(m2))); if (m1 != m2) d ^= 0xbad1; }
   uint8_t buf[40]; for (auto& x : buf) x = (uint8_t)r.next();
   d = hash_combine(d, nop::SipHash::Compute(nop::BlockReader<uint8_t>(buf, sizeof buf), r.next(), (uint64_t)tid));
   return d;
